@@ -18,9 +18,12 @@
   The per-function obligations `noMutation prog_<f> = true` are in the generated `Gen/Effects.lean`
   (regenerated from the Python source on every run, closed by `decide`).
 
+  Whole operator trees (C01 expression language: 19 leaf classes + Compose/Add/Conj/Hstack/Vstack/
+  Diag) are in Props/C02Tree.lean: `tree_linear`, `tree_deterministic`, `tree_history_deterministic`.
+
   What is only VALIDATED (runtime correspondence stream in harness/props/c02.py): that the generated
   IR over-approximates what numpy actually does (table of view/copy semantics), and linearity /
-  determinism of the operators whose arithmetic is not an entry list (FFT, NUFFT, wavelet).
+  determinism of the operators whose arithmetic is not an entry list (FFT, NUFFT, wavelet, convolution).
 -/
 import SigpyVerif.Lemmas.C02
 import SigpyVerif.Model.Py
